@@ -3,6 +3,8 @@ from __future__ import annotations
 
 import math
 
+from fractions import Fraction as Fr
+
 from hypothesis import strategies as st
 
 from ..core.types import Outcome, Part
@@ -17,7 +19,7 @@ RULE = (
     "set is compared with the table slices the library stores on that target (source of truth): every emitted point lies within 0.0051 "
     "(Chebyshev) of a table row, in table order; every table row inside the non-flat extent lies within 0.011 (Chebyshev, point to "
     "polyline) of the emitted curve; per segment the colour follows the sign of the enthalpy change and no step inside a segment has the "
-    "opposite sign; extents equal the stream duties (composite curves), Qh / Qc (grand composite) and the summed zonal utility duties (total-site utility profiles); the table stored behind each emitted graph is, column by column, a slice of the target's own problem table (real scale for 'Composite Curves', shifted for 'Shifted Composite Curves' and the GCC); graph-set keys = record names, "
+    "opposite sign; extents equal the stream duties (composite curves), Qh / Qc (grand composite) , the summed zonal utility duties (total-site utility profiles) and the duties assigned to them (site source and sink profiles); the table stored behind each emitted graph is, column by column, a slice of the target's own problem table (real scale for 'Composite Curves', shifted for 'Shifted Composite Curves' and the GCC); graph-set keys = record names, "
     "names match, types are documented GraphType values, none twice, DI sets hold CC, SCC, GCC and total-site sets hold TSP, SUGCC. "
     "non-trivial = some emitted curve has >= 4 vertices; distinct by canonical JSON."
 )
@@ -190,8 +192,15 @@ def eval_case(case) -> Outcome:
                             vals = [float(v) for v in tbl.col[col]]
                             span = max(vals) - min(vals)
                             want = sum(float(u.heat_flow) for u in us)
-                            if abs(span - want) > 2e-4 + P.eps_of(c):
+                            if abs(span - want) > 0.011 + P.eps_of(c):
                                 out.fail("C13.extent", f"{where} {col}: the {nm}-utility profile spans {span!r} but the zones use {want!r} of {nm} utility in total")
+                        # the zones' net heat sinks (served by hot utility) and net heat sources (served by cold utility)
+                        for col, want, nm in (("H_cold_net", sum(float(u.heat_flow) for u in tz.hot_utilities), "sink"), ("H_hot_net", sum(float(u.heat_flow) for u in tz.cold_utilities), "source")):
+                            vals = [float(v) for v in tbl.col[col]]
+                            span = max(vals) - min(vals)
+                            # the table's temperatures are rounded to 4 dp: a latent (0.01 K) stream turns that into enthalpy
+                            if abs(span - want) > 0.011 + P.eps_of(c) + 1.1e-4 * float(sum((x.cp for x in c.hot + c.cold), Fr(0))):
+                                out.fail("C13.extent", f"{where} {col}: the site {nm} profile spans {span!r} but the zones' assigned {'hot' if nm == 'sink' else 'cold'} utility duties sum to {want!r}")
                 if g.type in ("Composite Curves", "Shifted Composite Curves", "Balanced Composite Curves", "Total Site Profiles"):
                     cols = {
                         "Composite Curves": [("H_hot", "Hot CC", 0), ("H_cold", "Cold CC", 1)],
